@@ -178,7 +178,7 @@ def render(ast: dict, style: str, ls: int) -> dict:
     recs = literals(ast)
     pr = surface.Printer()
     pr.program(ast)
-    text, pos = surface.layout(pr.toks, random.Random(ls), style)
+    text, pos = surface.layout(pr.toks, random.Random(ls), style, rich=True)
     order = [key[1] for tk in pr.toks for key, kind in tk.marks if kind == "start" and key[0] == "pos"]
     by_id = {id(rc["node"]): rc for rc in recs}
     ordered = [by_id[i] for i in order]
@@ -519,6 +519,11 @@ def run(run: core.Run) -> int:
     if not prep["proofs_ok"] or not aud["ok"] or not prep["driver_ok"]:
         run.broken_tie("Lean obligations of C18 do not check (build/audit)",
                        {"theorems": THEOREMS, "log": prep["log"][-3000:], "audit": {k: v for k, v in aud.items() if k != "theorems"}})
+    if not quick and prep["proofs_ok"]:
+        ok, out = core.leanchecker(MODULES)
+        stats["leanchecker"] = 1 if ok else 0
+        if not ok:
+            run.broken_tie("leanchecker rejects the C18 modules", {"log": out})
     gen_ok = [c for c in cases if not c.get("witness")]
     cov = core.proof_coverage(run, prep, aud, MODULES, THEOREMS, {
         "programs": len(gen_ok), "witness_texts": len(WITNESSES), "outcomes": dict(stats), "literal_shapes": dict(places),
@@ -534,7 +539,12 @@ def run(run: core.Run) -> int:
         "ANTLR token positions (ctx.start / ctx.stop) are not modelled: compared with the printer's positions on every generated text (oracle a) and with Lean posOf (tie)",
         "harness printer's position bookkeeping (harness/gen/surface.py layout)",
     ]
-    return run.finish("proof", cov, [
+    cov["explanation"] = (
+        "hybrid: (1) PROOF, all texts - the listed Lean theorems about spans (offsetOf / posOf inverse, splice_local) and about splicing a printed mark on the C16 token model; "
+        "(2) DIFFERENTIAL ties - Lean replaceSpan vs the harness' splice on valid and invalid spans, Lean posOf vs the position of every ANTLR token (ties); "
+        "(3) EXPLORATION - the visitor over the ANTLR parse tree is not modelled: listing vs printer positions, listing vs literal value vs compiled parameters, and "
+        "splice-and-recompile are evaluated on the real code for generated programs (programs, outcomes, literal_shapes)")
+    return run.finish("other", cov, [
         "the Lean theorems are about text spans and the token model; that the visitor reports the first/last token of every literal is decided by the oracle on generated programs (exploration)",
         "the splice theorem assumes the printed mark's name needs no escaping (C04 known finding posmark_name_needs_escape); edited names are plain",
         "edited offsets are 0 or 2 (the only offsets the printed form reproduces, C04 posarg_exact_iff)",
